@@ -66,8 +66,21 @@ def range_queries(m):
 def search(seed, tier, obligation, hints):
     n = 3000 if tier == "quick" else 40000
     fn = obligation.split("/")[0] if obligation and obligation.split("/")[0].startswith("Market.") else None
-    return drivers.search_seeds(INSTALL, _run, range(seed * 1000000, seed * 1000000 + n), {"driver": "market_history", "only_function": fn}, only_function=fn)
+    r = drivers.search_seeds(INSTALL, _run, range(seed * 1000000, seed * 1000000 + n), {"driver": "market_history", "only_function": fn}, only_function=fn)
+    if r.get("found") or fn != "Market._execute_orders":
+        return r
+    # fills are also produced by the matching driver (fine decimal tick grids, accumulated books): a fill booked wrongly shows there
+    from . import matching
+    r2 = matching.search(seed, tier, obligation, hints)
+    if r2.get("found"):
+        r2["input"] = {"matching": r2["input"]}
+        return r2
+    r["cases"] = r.get("cases", 0) + r2.get("cases", 0)
+    return r
 
 
 def replay(inp):
+    if "matching" in inp:
+        from . import matching
+        return matching.replay(inp["matching"])
     return drivers.replay_seed(INSTALL, _run, inp["seed"], inp.get("only_function"))
